@@ -201,7 +201,8 @@ impl CoseMacBuilder {
 
     /// Add a [`CoseRecipient`].
     #[must_use]
-    pub fn add_recipient(self, recipient: CoseRecipient) -> Self { let mut self_ = self;
+    pub fn add_recipient(self, recipient: CoseRecipient) ->« (r:» Self«)
+        ensures r.inner() == (CoseMac { recipients: r.inner().recipients, ..self.inner() }), r.inner().recipients@ == self.inner().recipients@.push(recipient),» { let mut self_ = self;
         self_.0.recipients.push(recipient);
         self_
     }
